@@ -12,6 +12,13 @@ theorem distinctStrs_iff {l : List Str} : distinctStrs l = true ↔ l.Nodup := b
     simp only [distinctStrs, Bool.and_eq_true, Bool.not_eq_true', List.contains_eq_mem,
       decide_eq_false_iff_not, ih, List.nodup_cons]
 
+theorem nodup_of_map_nodup {l : List (Str × Str)} {f : Str × Str → Str} (h : (l.map f).Nodup) : l.Nodup := by
+  induction l with
+  | nil => exact List.nodup_nil
+  | cons x xs ih =>
+    simp only [List.map_cons, List.nodup_cons, List.mem_map, not_exists, not_and] at h ⊢
+    exact ⟨fun hx => h.1 x hx rfl, ih h.2⟩
+
 theorem mem_keysOf {m : List (Str × Str)} {p : Str} : p ∈ keysOf m ↔ ∃ u, (p, u) ∈ m := by
   simp [keysOf]
 
@@ -136,11 +143,12 @@ structure NsInv (m : List (Str × Str)) : Prop where
   nodup : (keysOf m).Nodup
   names : ∀ p ∈ keysOf m, nameOk p = true ∧ p ≠ xmlnsStr
   uris : ∀ x ∈ m, uriOk x.2 = true
+  vals : (m.map (·.2)).Nodup
 
 /-- the reader's map holds the same bindings as the writer's (in another order) -/
 def SameMap (m' m : List (Str × Str)) : Prop := ∀ x, x ∈ m' ↔ x ∈ m
 
-theorem NsInv.nil : NsInv [] := ⟨by simp [keysOf], by simp [keysOf], by simp⟩
+theorem NsInv.nil : NsInv [] := ⟨by simp [keysOf], by simp [keysOf], by simp, by simp⟩
 
 theorem NsInv.no_empty_key {m : List (Str × Str)} (h : NsInv m) : lookupNs [] m = none := by
   apply lookupNs_none
@@ -291,18 +299,20 @@ theorem SameMap.keys {m' m : List (Str × Str)} (h : SameMap m' m) (p : Str) :
 /-- what `nsdeclsOk` says, as propositions -/
 theorem nsdeclsOk_facts {pns nsd : List (Str × Str)} (h : nsdeclsOk pns nsd = true) :
     (∀ d ∈ nsd, nameOk d.1 = true ∧ d.1 ≠ xmlnsStr ∧ uriOk d.2 = true ∧ d.1 ∉ keysOf pns) ∧
-    (keysOf nsd).Nodup := by
+    (keysOf nsd).Nodup ∧ ((scope pns nsd).map (·.2)).Nodup := by
   simp only [nsdeclsOk, Bool.and_eq_true, List.all_eq_true, bne_iff_ne, ne_eq, Bool.not_eq_true',
     List.contains_eq_mem, decide_eq_false_iff_not] at h
-  refine ⟨fun d hd => ?_, distinctStrs_iff.mp h.1.2⟩
+  refine ⟨fun d hd => ?_, distinctStrs_iff.mp h.1.2, distinctStrs_iff.mp h.2⟩
   have := h.1.1 d hd
   exact ⟨this.1.1.1, this.1.1.2, this.1.2, this.2⟩
 
 /-- the writer's map of an element, given its parent's -/
 theorem NsInv.scope {pns nsd : List (Str × Str)} (hinv : NsInv pns) (h : nsdeclsOk pns nsd = true) :
     scope pns nsd = nsd ++ pns ∧ NsInv (nsd ++ pns) := by
-  obtain ⟨hd, hnd⟩ := nsdeclsOk_facts h
-  refine ⟨scope_disjoint (fun o ho => (hd o ho).2.2.2), ?_, ?_, ?_⟩
+  obtain ⟨hd, hnd, hvals⟩ := nsdeclsOk_facts h
+  have hscope := scope_disjoint (fun o ho => (hd o ho).2.2.2)
+  rw [hscope] at hvals
+  refine ⟨hscope, ?_, ?_, ?_, hvals⟩
   · rw [keysOf_append]
     refine List.nodup_append.mpr ⟨hnd, hinv.nodup, ?_⟩
     intro a ha b hb hab
@@ -327,7 +337,7 @@ theorem reader_scope {pns pns' nsd : List (Str × Str)} (hinv : NsInv pns) (hinv
     let nsd' := canonNs (if isRoot then [] else keysOf pns) (nsd ++ pns)
     scope pns' nsd' = nsd' ++ pns' ∧ NsInv (nsd' ++ pns') ∧ SameMap (nsd' ++ pns') (nsd ++ pns) := by
   intro nsd'
-  obtain ⟨hd, hnd⟩ := nsdeclsOk_facts h
+  obtain ⟨hd, hnd, _⟩ := nsdeclsOk_facts h
   obtain ⟨_, hinvW⟩ := hinv.scope h
   have hmem : ∀ x, x ∈ nsd' ↔ x ∈ nsd := by
     intro x
@@ -350,14 +360,18 @@ theorem reader_scope {pns pns' nsd : List (Str × Str)} (hinv : NsInv pns) (hinv
   have hsame : SameMap (nsd' ++ pns') (nsd ++ pns) := by
     intro x
     simp only [List.mem_append, hmem x, hs x]
-  refine ⟨scope_disjoint hdisj, ⟨?_, ?_, fun x hx => hinvW.uris x ((hsame x).mp hx)⟩, hsame⟩
-  · rw [keysOf_append]
+  have hkeys : (keysOf (nsd' ++ pns')).Nodup := by
+    rw [keysOf_append]
     refine List.nodup_append.mpr ⟨canonNs_keys_nodup hinvW.nodup, hinv'.nodup, ?_⟩
     intro a ha b hb hab
     obtain ⟨u, hu⟩ := mem_keysOf.mp ha
     exact hdisj _ hu (by rw [hab]; exact hb)
+  have hperm : (nsd' ++ pns').Perm (nsd ++ pns) :=
+    (List.perm_ext_iff_of_nodup (nodup_of_map_nodup hkeys) (nodup_of_map_nodup hinvW.nodup)).mpr hsame
+  refine ⟨scope_disjoint hdisj, ⟨hkeys, ?_, fun x hx => hinvW.uris x ((hsame x).mp hx), ?_⟩, hsame⟩
   · intro p hp
     exact hinvW.names p ((hsame.keys p).mp hp)
+  · exact (hperm.map _).nodup_iff.mpr hinvW.vals
 
 /-! ### attributes -/
 
